@@ -401,9 +401,9 @@ func newPeerEnd(c network.Conn, dialled bool) *peerEnd {
 // on a deadline expiring, however loaded the machine is. After the first wait of the
 // process has missed it (an alarm is then certain), later cases use a shorter patience, and
 // the remaining waits of the same case are short.
-var patience = 40 * time.Second
+var patience = 30 * time.Second
 
-const patienceAfterMiss = 4 * time.Second
+const patienceAfterMiss = 3 * time.Second
 const shortDeadline = 300 * time.Millisecond
 
 var opDeadline = patience
@@ -1098,15 +1098,30 @@ func (e *renv) rebind() bool {
 	return !e.lm.VerifLocalListening(e.r.ServerIdentity.Address)
 }
 
+// closeBounded closes a connection while cleaning up (nothing is observed any more): a Close of
+// the code under test that hangs must not hang the harness.
+func closeBounded(c network.Conn) {
+	done := make(chan struct{})
+	go func() {
+		defer close(done)
+		defer func() { recover() }()
+		c.Close()
+	}()
+	select {
+	case <-done:
+	case <-time.After(200 * time.Millisecond):
+	}
+}
+
 // cleanup closes what the scenario left behind.
 func (e *renv) cleanup() {
 	e.sched.ReleaseAll()
 	for _, c := range e.conns {
 		if c.pe != nil {
-			c.pe.conn.Close()
+			closeBounded(c.pe.conn)
 		}
 		if c.our != nil {
-			c.our.Close()
+			closeBounded(c.our)
 		}
 	}
 	stopped := make(chan struct{})
